@@ -190,22 +190,6 @@ theorem fitLoop_outOfFuel_iff (S : Schema) (hdet : DetS S) (fuel : Nat) (st : Fi
 
 /-! ### a static condition under which no stuck state is reached -/
 
-/-- the top-level content ends in a non-leaf node -/
-def endsInElem : List Node → Bool
-  | [] => false
-  | [n] => !n.isLeaf
-  | _ :: n :: ns => endsInElem (n :: ns)
-
-/-- **the guard of `fitLoop_terminates`** — the slice's top-level content ends in a non-leaf node
-    (whatever its open depths), or it consists of leaf and text nodes only and is closed on both
-    sides.  The slices it excludes are those with a non-leaf node in front of a final leaf or text
-    node at the top level: `open_more` then sets `open_end ≥ 1` although the last node cannot be
-    opened, and once everything has been dropped `size = -open_end` keeps the loop going
-    (`fitLoop_diverges_example` below; with the bundled schemas only block leaves such as a
-    horizontal rule can follow a non-leaf node, and the run ends with `size = 0`). -/
-def Slice.termGuard (u : Slice) : Bool :=
-  endsInElem u.content || (u.content.all Node.isLeaf && u.openStart == 0 && u.openEnd == 0)
-
 theorem endsInElem_ne_nil {l : List Node} (h : endsInElem l = true) : l ≠ [] := by
   intro h0; subst h0; simp [endsInElem] at h
 
